@@ -65,6 +65,7 @@ THEOREMS = [
     "Nix.C08.C08_feature_by_key",
     "Nix.C08.C08_axis_off_band",
     "Nix.C08.C08_region_off_band",
+    "Nix.C08.C08_region_multi_off_band",
     "Nix.C08.C08_axis_on_samples",
     "Nix.C08.C08_axis_full_counterexample",
 ]
@@ -1187,6 +1188,13 @@ def correspondence(ctx):
                 au = axis_units(c, d) if c["units"] else ("none",)
                 if au[0] == "scale":
                     _bump(dist["scale_exponent"], str(SI_EXP[au[1]] - SI_EXP[au[2]]))
+            if "addr" in c and designate(c)[0] == "skip":
+                # the property does not say what such a key means (an entity object as key; a data array's name shared
+                # by features of different link types): the model records what the code does, a difference is no alarm
+                _bump(dist, "unspecified_key_skipped")
+                if i != m:
+                    _bump(dist, "unspecified_key_differ")
+                continue
             if cl == "marginal":
                 if i != m:
                     marginal_differ += 1
